@@ -80,9 +80,10 @@ func writeShards(dir, prefix string, cases []tieCase, perShard int) []string {
 }
 
 // writeTie converts files to model terms and writes the cases files of the three properties:
-//   C01: S2 + S3 files, outcome {ok, panic} and warning offsets of every modelled checker
-//   C07: S1 files, the same comparison (wf includes: every node position is a scanner token start)
-//   C20: namesake stress packages, additionally the offsets at which the model says "namesake" vs the Go oracle
+//
+//	C01: S2 + S3 files, outcome {ok, panic} and warning offsets of every modelled checker
+//	C07: S1 files, the same comparison (wf includes: every node position is a scanner token start)
+//	C20: namesake stress packages, additionally the offsets at which the model says "namesake" vs the Go oracle
 func writeTie(s *Shared, dir string, all []*Pkg, obs []*FileRun, starts map[*File]map[int]bool) {
 	byKey := map[string]*FileRun{}
 	for _, o := range obs {
